@@ -350,6 +350,9 @@ class Analysis:
     def iter_may_raise(self, ip, it):
         return False
 
+    def on_back_edge(self, ip, st):
+        return st
+
     # classification of opaque awaits ------------------------------------
     def suspends(self, ip, term):
         return ip.term_may_suspend(term)
@@ -858,9 +861,26 @@ class Interp:
                 o.ret += r.ret
                 o.exc += r.exc
                 o.nxt += [self.drop_loop_locals(s, y, fr) for y in r.brk]
-                work += [self.back_edge(st, cur, y) for y in r.nxt + r.cont]
+                work += [self.an.on_back_edge(self, self.back_edge(st, cur, y)) or y for y in r.nxt + r.cont]
         o.nxt = dedup(o.nxt)
         return o
+
+    def stale_elem(self, st, elem, s, fr):
+        """when a loop rebinds (or leaves) its element, a local whose value was computed
+        from the previous element no longer describes anything: make it unknown.
+        Collections (unions) keep their per-element items: "for every element"."""
+        v = None
+        tnames = {n.id for n in ast.walk(s.target) if isinstance(n, ast.Name)}
+        for k, t in st.vars.items():
+            if k[0] != fr.fid or k[1] in tnames or t[0] in ('union', 'acc', 'strcat', 'unk', 'elem', 'last'):
+                continue
+            if T.contains(t, elem):
+                if v is None:
+                    v = dict(st.vars)
+                v[k] = T.mk(('unk', k[1]))
+        if v is None:
+            return st
+        return st._new(vars=v)
 
     def back_edge(self, entry, head, back):
         """state carried round a loop: locals born inside the body and facts
@@ -974,7 +994,7 @@ class Interp:
             if not (first and nonempty is True):
                 y = self.an.on_loop_exit(self, ctx, cur.assume(it, False) if sized else cur, fr)
                 if y is not None:
-                    y = y.forget(lambda t: t == elem)
+                    y = self.stale_elem(y, elem, s, fr).forget(lambda t: t == elem)
                     if not first:
                         for tn in ast.walk(s.target):
                             if isinstance(tn, ast.Name):
@@ -1002,9 +1022,10 @@ class Interp:
                     self.loopctx.pop()
                 o.ret += r.ret
                 o.exc += r.exc
-                o.nxt += [self.drop_loop_locals(s, y.forget(lambda t: t == elem), fr) for y in r.brk]
+                o.nxt += [self.drop_loop_locals(s, self.stale_elem(y, elem, s, fr).forget(lambda t: t == elem), fr)
+                          for y in r.brk]
                 for y in r.nxt + r.cont:
-                    work.append((self.back_edge(st, cur, y), False))
+                    work.append((self.back_edge(st, cur, self.stale_elem(y, elem, s, fr)), False))
 
     # -------------------------------------------------- E5: fold summaries
     def try_fold(self, s, it, st, fr):
